@@ -6,6 +6,8 @@ worker processes, rows of the 1024x1024 pair table sharded by index). No random 
 import itertools
 
 from malt.core import converter
+from malt.impl import api as _api
+from malt.impl import conversion as _conversion
 from malt.pyct import parser
 from vf import harness
 
@@ -18,7 +20,9 @@ TECHNIQUE = ('exhaustive enumeration of the finite option space (1024 values, 10
 RULE = ('every one of the 2^3 x 2^7 = 1024 ConversionOptions values is constructed (also through the '
         'alternative spellings None / bare Feature / tuple / reversed tuple / list / set / frozenset), '
         'round-tripped through to_ast -> unparse -> eval, compared against all 1024 values for eq/ne/hash, '
-        'and checked for call_options and uses; a value is non-trivial always (the space is finite) and '
+        'and checked for call_options and uses; as cache keys: an entity allowlisted under one value is looked up under all 1024 '
+        '(conversion.cache_allowlisted / is_in_allowlist_cache) and the transpiler caching keys (api.PyToPy.get_caching_key) of all '
+        'ordered pairs are compared - a hit / equal key exactly when the two values are equal; a value is non-trivial always (the space is finite) and '
         'distinct by its (flags, feature set); evaluations counts single-value checks + ordered pairs + '
         'embedded conversions')
 ASSUMPTIONS = [
@@ -161,6 +165,31 @@ def check_pair(va, a, vb, b, fails):
     fails.append(('pair:dictkey', {'other': enc(vb)}))
 
 
+def caching_keys(objs):
+  """The key the transpiler files generated code under, for every option value."""
+  return [_api._TRANSPILER.get_caching_key(converter.ProgramContext(options=o)) for o in objs]
+
+
+def check_cache_keys(va, a, vals, objs, keys, ka, fails):
+  """The two caches keyed by options: unequal options never share an entry, equal ones always do."""
+  def entity():
+    return None
+  _conversion.cache_allowlisted(entity, a)
+  for vb, b, kb in zip(vals, objs, keys):
+    same = tup(va) == tup(vb)
+    hit = _conversion.is_in_allowlist_cache(entity, b)
+    if bool(hit) != same:
+      fails.append(('cache:allowlist:%s' % ('hit-for-unequal-options' if hit else 'miss-for-equal-options'), {'other': enc(vb)}))
+    try:
+      keq = (ka == kb) and hash(ka) == hash(kb) and (kb in {ka: 1})
+    except Exception as e:
+      fails.append(('cache:transpiler-key:exc:' + type(e).__name__, {'other': enc(vb)}))
+      continue
+    if bool(keq) != same:
+      fails.append(('cache:transpiler-key:%s' % ('equal-for-unequal-options' if keq else 'differs-for-equal-options'), {'other': enc(vb)}))
+  return 2 * len(vals)
+
+
 # ---- end-to-end embedding -----------------------------------------------------------------------
 
 _E2E_SRC = '''
@@ -252,12 +281,13 @@ def _std_checks(fails):
 
 
 def budget(tier):
-  return {'values': 1024, 'pairs': 1024 * 1024, 'wall_cap': 900}
+  return {'values': 1024, 'pairs': 3 * 1024 * 1024, 'wall_cap': 900}
 
 
 def shard(ctx, acc):
   vals = all_values()
   objs = [mk(v) for v in vals]
+  keys = caching_keys(objs)
   mod = harness.load_module(_E2E_SRC)
   try:
     if ctx.shard == 0:
@@ -275,6 +305,7 @@ def shard(ctx, acc):
       for j, vb in enumerate(vals):
         check_pair(v, a, vb, objs[j], fl)
       n += len(vals)
+      n += check_cache_keys(v, a, vals, objs, keys, keys[idx], fl)
       cls = ['nfeatures=%d' % len(v[3])]
       if embeddable(v):
         check_embed(v, mod, fl)
@@ -302,6 +333,9 @@ def replay(case):
   a = mk(v)
   for vb in all_values():
     check_pair(v, a, vb, mk(vb), fails)
+  vals = all_values()
+  objs = [mk(x) for x in vals]
+  check_cache_keys(v, a, vals, objs, caching_keys(objs), caching_keys([a])[0], fails)
   if embeddable(v):
     mod = harness.load_module(_E2E_SRC)
     try:
